@@ -243,6 +243,25 @@ Fixpoint parse_segments (segs : list str) : option (list (str * str)) :=
   end.
 Definition parse_query (q : str) : option (list (str * str)) := parse_segments (split_on amp q).
 
+(* What the authenticator's handlers actually see.  In the production chain (cmd/sso-auth/main.go:48-57)
+   auth.NewLoggingHandler runs first; its getProxyHost (logging_handler.go:84-95) calls req.ParseForm and
+   drops the error.  parseQuery keeps every well-formed pair it met (it "continue"s past a bad one), and a
+   second ParseForm is a no-op that returns nil, so validateRedirectURI / validateSignature never see the
+   error: their 400-on-ParseForm-error branch is unreachable and the gates work on the pairs that parsed. *)
+Fixpoint collect_segments (segs : list str) : list (str * str) :=
+  match segs with
+  | [] => []
+  | seg :: rest =>
+      if existsb (N.eqb semicolon) seg then collect_segments rest
+      else if is_nil seg then collect_segments rest
+      else let '(k, v) := cut_eq seg in
+           match query_unescape k, query_unescape v with
+           | Some k', Some v' => (k', v') :: collect_segments rest
+           | _, _ => collect_segments rest
+           end
+  end.
+Definition form_of_query (q : str) : list (str * str) := collect_segments (split_on amp q).
+
 Definition s_http : str := [104;116;116;112].
 Definition s_https : str := [104;116;116;112;115].
 Definition k_redirect_uri : str := [114;101;100;105;114;101;99;116;95;117;114;105].
@@ -331,9 +350,16 @@ Definition get_sign_out_url (base secret uri : str) (now : Z) : location :=
   {| l_base := base;
      l_params := [(k_redirect_uri, uri); (k_sig, sign_redirect secret uri now); (k_ts, dec now)] |}.
 
-Record presp := { p_status : Z; p_clears : bool; p_loc : location }.
+Record presp := {
+  p_status : Z;
+  p_clears : bool;          (* a Set-Cookie that clears the proxy session cookie ... *)
+  p_sets_live : bool;       (* ... and none, before or after it, that carries a (re-sealed) session *)
+  p_asks : bool;            (* does the handler consult the authenticator's back channel (it never authenticates) *)
+  p_loc : location }.
 
-(* OAuthProxy.SignOut, oauthproxy.go:292-313. [origin_form] = (req.URL.Scheme == ""): true for an
+(* OAuthProxy.SignOut, oauthproxy.go:292-313: ClearSession and the redirect, nothing else — whatever cookie
+   the request carries (none, junk, a session whose validation or refresh is due, an expired one) is never
+   opened, so no back-channel call is made and no session is re-saved. [origin_form] = (req.URL.Scheme == ""): true for an
    ordinary request line "GET /oauth2/sign_out"; false when the client sent an absolute-form
    target "GET http://host/oauth2/sign_out" — then NO scheme is written (the code sets the scheme
    only when req.URL.Scheme is empty) and the return address is the scheme-relative "//host/". *)
@@ -341,7 +367,8 @@ Definition proxy_scheme (secure origin_form : bool) : str :=
   if origin_form then (if secure then s_https else s_http) else [].
 Definition proxy_sign_out (base secret : str) (secure origin_form : bool) (host : str) (now : Z) : presp :=
   let uri := url_string (proxy_scheme secure origin_form) host in
-  {| p_status := 302%Z; p_clears := true; p_loc := get_sign_out_url base secret uri now |}.
+  {| p_status := 302%Z; p_clears := true; p_sets_live := false; p_asks := false;
+     p_loc := get_sign_out_url base secret uri now |}.
 
 (* validSignature, middleware.go:158-181 *)
 Definition sig_ttl : Z := 300%Z.
